@@ -186,7 +186,9 @@ func buildRules(c *an.Ctx, fn *ssa.Function) {
 				if bi, ok := x.Call.Value.(*ssa.Builtin); ok && bi.Name() == "copy" {
 					dst, src := fi.Term(x.Call.Args[0]), fi.Term(x.Call.Args[1])
 					if dst.K == an.KSlice && strings.Contains(dst.A[0].Key(), "ImpactRates") && src.K == an.KSlice && src.A[0].K == an.KLookup {
-						if f, _, ok := mapFieldOfTerm(src.A[0].A[0]); ok && f == "equipmentImpactRate" && src.A[1].Key() == xT.Key() && isConstTerm(src.A[2], "end") {
+						// rates[x:] or rates[x:x+2016]: the destination holds 2016 elements either way
+						hiOK := isConstTerm(src.A[2], "end") || src.A[2].Key() == an.NormBin("+", xT, an.ConstTerm("2016")).Key()
+						if f, _, ok := mapFieldOfTerm(src.A[0].A[0]); ok && f == "equipmentImpactRate" && src.A[1].Key() == xT.Key() && hiOK {
 							if src.A[0].A[1].K == an.KExt && src.A[0].A[1].S == "1" {
 								okRates = true
 							}
